@@ -105,6 +105,16 @@ func SchedCustom(prop string, race bool) func(tier string, env *Env) *Summary {
 				mu.Lock()
 				defer mu.Unlock()
 				mergeLines(sum, append(vlines, elines...))
+				stalled := false
+				for _, l := range elines {
+					if strings.Contains(l, `"fatal":"stalled"`) {
+						stalled = true
+					}
+				}
+				if done == nil && stalled {
+					sum.Complete = false
+					return // (the E line was merged as an engine error above)
+				}
 				if done == nil {
 					// the worker process died (e.g. the Go runtime detected concurrent map access): a finding in itself
 					name, choices, _ := strings.Cut(last, " ")
